@@ -133,6 +133,19 @@ def shape_i0(case):
 
 
 # ------------------------------------------------- keyed random source ----
+class Runaway(Exception):
+    """the implementation did not stop (far more calls than any run of the property's domain makes,
+    or no return within the time limit)"""
+
+
+LIMIT_CALLS = 20000
+LIMIT_SECONDS = 3.0
+
+
+def _alarm(sig, frm):
+    raise Runaway()
+
+
 class Keyed(R.Scripted):
     """stand-in for the module `random`: .random() and .choice() are answered from tables keyed
     by what the caller is working on (read from its frame), .sample() from the draw script.
@@ -150,6 +163,7 @@ class Keyed(R.Scripted):
     def answer(self, step, u, v, a):
         b = self.lookup(u, v, a)
         self.qlog.append((step, self.idmap[u], self.idmap[v], b))
+        if len(self.qlog) > LIMIT_CALLS: raise Runaway()
         return b
 
     def random(self):
@@ -198,6 +212,7 @@ class Keyed(R.Scripted):
         a = self.age.get(u, 0); self.age[u] = a + 1
         b = (self.idmap[u], min(a, rec['cap'] - 1)) in rec['true']
         self.rlog.append((step, self.idmap[u], b))
+        if len(self.rlog) > LIMIT_CALLS: raise Runaway()
         return b
 
 
@@ -216,6 +231,7 @@ class patch_has_edge:
             f = sys._getframe(1)
             if f.f_code.co_name == 'discrete_SIR' and 't' in f.f_locals:
                 s.hlog.append((len(f.f_locals['t']) - 1, s.idmap[u], s.idmap[v], r))
+                if len(s.hlog) > LIMIT_CALLS: raise Runaway()
             return r
         nx.Graph.has_edge = has_edge
 
@@ -247,12 +263,19 @@ def call_impl(EoN, case, s, full=None):
 
 
 def run_impl(EoN, sim, case, draws, full=None):
+    import signal
     gc = case['gc']
     s = Keyed(draws, case)
-    if case['kind'] == 'PERC':
-        st, val = R.run_impl(lambda: EoN.percolate_network(gc.G, float(case['p'])), s, sim)
-    else:
-        st, val = R.run_impl(lambda: call_impl(EoN, case, s, full), s, sim)
+    old = signal.signal(signal.SIGALRM, _alarm); signal.setitimer(signal.ITIMER_REAL, LIMIT_SECONDS)
+    try:
+        if case['kind'] == 'PERC':
+            st, val = R.run_impl(lambda: EoN.percolate_network(gc.G, float(case['p'])), s, sim)
+        else:
+            st, val = R.run_impl(lambda: call_impl(EoN, case, s, full), s, sim)
+    except Runaway:
+        st, val = 'EXC', 'Runaway'
+    finally:
+        signal.setitimer(signal.ITIMER_REAL, 0); signal.signal(signal.SIGALRM, old)
     out = {'status': st, 'log': s.log, 'used': s.i, 'qlog': s.qlog, 'plog': s.plog, 'rlog': s.rlog, 'calls': s.calls, 'hlog': s.hlog}
     if st == 'EXC': out['err'] = val
     if st == 'OK' and case['kind'] == 'PERC':
@@ -461,6 +484,8 @@ def oracle_bfs(case, impl, m=None):
             bad.append(('rho/sample', 'sample larger than the population was not a ValueError'))
         return bad
     if impl['status'] == 'EXC':
+        if impl['err'] == 'Runaway':
+            return [('termination', 'the run did not stop (more than %d transmission tests / %.0f s)' % (LIMIT_CALLS, LIMIT_SECONDS))]
         return [('crash', 'raised %s on a valid input' % impl['err'])]
     nbrs = {im[u]: [im[v] for v in G.neighbors(u)] for u in gc.order}
     tt = case['tt']; cap = case['cap']; tmin = case['tmin']; tmax = case['tmax']
